@@ -439,6 +439,46 @@ def BU_bundle(ctx):
     if len(fns) != 1:
         raise AnchorLost('parallel_apply_transitions_and_create_reverts impl for BundleState')
     f = ctx.fn(fns[0])
+    # second phase: whatever the parallel preparation produced is installed, under no further condition
+    dropped = []
+    n_inst = 0
+    for p in [q for q in f.paths(max_visits=2) if q.end in ('return', 'cut')]:
+        first = set()
+        for k, a in enumerate(p.events):
+            if a.kind != 'atom' or a.d['term'][0] != 'discr' or a.d['outcome'] != 'Some':
+                continue
+            x = strip(a.d['term'][1])
+            if x[0] != 'field' or a.d['term'][1] in first:
+                continue    # (the same decision is re-stated when the moved-out field's drop flag is consulted at the loop head)
+            first.add(a.d['term'][1])
+            nxt = p.events[k + 1:k + 9]
+            if x[2].endswith('ProcessedTransition.contract'):
+                n_inst += 1
+                if not [e for e in nxt if e.kind == 'call' and e.d['callee'].endswith('::insert') and mentions_field(e.d['args'][0], 'BundleState.contracts')]:
+                    dropped.append('contract')
+            elif x[2].endswith('ProcessedTransition.account'):
+                n_inst += 1
+                # this iteration: up to the next item
+                it = []
+                for e in p.events[k + 1:]:
+                    if e.kind == 'call' and e.d['callee'].endswith('::next'):
+                        break
+                    it.append(e)
+                ins = [e for e in it if e.kind == 'call' and e.d['callee'].endswith('::insert') and mentions_field(e.d['args'][0], 'BundleState.state')]
+                if not ins or not (mentions_field(ins[0].d['args'][1], '.address') and mentions_field(ins[0].d['args'][2], '.present')):
+                    dropped.append('account')
+                # its revert is looked at, and kept when there is one
+                looked = [e for e in it if (e.kind == 'atom' and mentions_field(e.d['term'], '.revert')) or
+                          (e.kind == 'call' and any(mentions_field(a_, '.revert') for a_ in e.d['args']))]
+                if not looked:
+                    dropped.append('revert (never looked at)')
+                for m_, e in enumerate(it):
+                    if e.kind == 'atom' and e.d['term'][0] == 'discr' and e.d['outcome'] == 'Some' and mentions_field(e.d['term'][1], '.revert'):
+                        if not [y for y in it[m_ + 1:m_ + 9] if y.kind == 'call' and y.d['callee'].endswith(('::push', '::extend'))] and \
+                                not [y for y in it if y.kind == 'call' and y.d['callee'].endswith('::extend') and any(mentions_field(a_, '.revert') for a_ in y.d['args'])]:
+                            dropped.append('revert')
+    ctx.ob('BU', f, 'prepared-transitions-are-installed', n_inst >= 3 and not dropped, f'decisions seen={n_inst}; not installed: {sorted(set(dropped))}', site=f.loc(f.b['lo']),
+           what='each prepared contract / account / revert is inserted into the bundle exactly when it is present: a further condition drops a change from the bundle or from its reverts')
     bad = []
     n_del = n_par = 0
     for p in feasible(f.paths()):
